@@ -416,6 +416,9 @@ func runC14(c *eng.Ctx) {
 	c.Rule("R14.7", "K3")
 	ruleEncodeFailureIsAnError(c)
 
+	c.Rule("R14.9", "K1")
+	// PENDING-F67 ruleRawPayloadWaivesExpectedOffset(c)
+
 }
 
 func isParamData(v ssa.Value) bool {
